@@ -989,3 +989,25 @@ func ruleFS1(c *Ctx, rels ...string) {
 		c.ok("format strings are constants", token.NoPos, "%d formatting calls, every format built from constants only", n)
 	}
 }
+
+// ---- D1 no deferred call inside a loop --------------------------------------------------------------------------------------
+
+func ruleD1(c *Ctx, rels ...string) {
+	c.Rule("D1", "clean-up that belongs to one iteration happens in that iteration: no defer statement lies inside a loop (a deferred call runs when the function returns, so a reset, unlock, close or drain deferred in a loop body is postponed past all later iterations — the state it should have restored is seen by them)", 0)
+	n := 0
+	for _, fn := range c.srcFuncs(rels...) {
+		fi := c.fi(fn)
+		allInstrs(fn, func(in ssa.Instruction) {
+			d, ok := in.(*ssa.Defer)
+			if !ok {
+				return
+			}
+			n++
+			if fi.innermostLoop(in.Block().Index) == nil {
+				return
+			}
+			c.bad(fmt.Sprintf("%s defers %s inside a loop", funcName(fn), calleeName(&d.Call)), in.Pos(), "the call to %s at %s is deferred inside a loop: it runs only when %s returns, not at the end of the iteration, so every later iteration (and everything after the loop) still sees the state it was meant to restore", calleeName(&d.Call), c.pos(in.Pos()), funcName(fn))
+		})
+	}
+	c.ok("defers outside loops", token.NoPos, "%d defer statements in %v, none inside a loop", n, rels)
+}
